@@ -57,6 +57,11 @@ func unsafeToSlice(array interface{}, count int) unsafe.Pointer {
 
 func toSlice(array interface{}) (slice interface{}) {
 	t := reflect.TypeOf(array)
+	if reflect2.Type2(t).LikePtr() {
+		// a one-element array of a pointer-shaped type is stored directly in the
+		// interface word: copy it to addressable memory before taking its address.
+		array = toPtr(t, array)
+	}
 	sliceType := reflect.SliceOf(t.Elem())
 	sliceStruct := unpackEFace(&slice)
 	sliceStruct.typ = reflect2.PtrOf(sliceType)
